@@ -31,10 +31,16 @@ package main
 //	X FAILCOMMIT <n>                 the next n database write transactions run completely and are then rolled back
 //	X FAILCONN create|add|move       the next connector call of that kind fails
 //	X CHECK                          full checkpoint
+//	X FIXTURE <name>                 (first step only) the server is opened on a scratch copy of the upgrade fixture
+//	                                 $VERIF_CORPUS/fixtures/<name> and the history recorded there is continued (o_uids_fixture.go)
+//	S<i> RACE <p>|rec <command> // <second party's step>
+//	                                 <command> runs with the second party's step executed after exactly <p> database
+//	                                 calls of the command (o_uids_race.go)
 //
 // Flags: -n histories, -steps per history, -par concurrent histories, -genbudget (Generate() calls per history,
-// bounds the CLOCKWAIT), -directed <list|none>, -ascending, -catchup always|never|mixed, -log; directed scenarios
-// and $VERIF_CORPUS/*.c04uids run first. Every violation carries a stable `cause=<label>` (from the Lean judge).
+// bounds the CLOCKWAIT), -directed <list|none>, -ascending, -catchup always|never|mixed, -log, -fixtures all|none|<list>,
+// -fxsteps, -race default|none|<list>, -raceall, -mkfixture DIR; directed scenarios, $VERIF_CORPUS/*.c04uids, the upgrade
+// fixtures and the raced commands run first. Every violation carries a stable `cause=<label>` (from the Lean judge).
 //
 // Scheduling: one step at a time; after every step the connector is flushed and every session has
 // applied every update (Sys.Barrier), then the mailboxes the step touched are observed by a
@@ -49,6 +55,7 @@ package main
 //	N:<mb>:<uidv>:<uidnext>
 //	F:<mb>:<uidv>:<uidnext>:<uid>=<marker>,..|-        fresh full listing
 //	V:<mb>:<uidv>:<uid>=<marker>,..|-                  view of a session (possibly stale)
+//	W:.. / T:..                                        raced SELECT/EXAMINE / STATUS (o_uids_race.go)
 
 import (
 	"context"
@@ -70,7 +77,6 @@ import (
 	"github.com/ProtonMail/gluon/connector"
 	"github.com/ProtonMail/gluon/db"
 	"github.com/ProtonMail/gluon/imap"
-	"github.com/ProtonMail/gluon/verifhooks"
 )
 
 // ---- connector that survives restarts, knows mailbox/message ids, and can fail on demand ---------
@@ -83,6 +89,39 @@ type c04Conn struct {
 	mboxIDs  map[string]imap.MailboxID // mailbox name -> remote id
 	msgIDs   map[string]imap.MessageID // marker -> remote id
 	failNext map[string]int
+	// foreign: the server's database was not written under this remote (upgrade fixtures, o_uids_fixture.go): the
+	// remote accepts operations on messages it has never seen instead of dereferencing its empty tables
+	foreign bool
+}
+
+// knownTo: the message ids the dummy remote has in its tables.
+func (c *c04Conn) knownTo(ctx context.Context, ids []imap.MessageID) []imap.MessageID {
+	if !c.foreign {
+		return ids
+	}
+	var out []imap.MessageID
+	for _, id := range ids {
+		if _, err := c.Dummy.GetMessageLiteral(ctx, id); err == nil {
+			out = append(out, id)
+		}
+	}
+	return out
+}
+
+func (c *c04Conn) RemoveMessagesFromMailbox(ctx context.Context, w connector.IMAPStateWrite, ids []imap.MessageID, mboxID imap.MailboxID) error {
+	return c.Dummy.RemoveMessagesFromMailbox(ctx, w, c.knownTo(ctx, ids), mboxID)
+}
+
+func (c *c04Conn) MarkMessagesSeen(ctx context.Context, w connector.IMAPStateWrite, ids []imap.MessageID, seen bool) error {
+	return c.Dummy.MarkMessagesSeen(ctx, w, c.knownTo(ctx, ids), seen)
+}
+
+func (c *c04Conn) MarkMessagesFlagged(ctx context.Context, w connector.IMAPStateWrite, ids []imap.MessageID, flagged bool) error {
+	return c.Dummy.MarkMessagesFlagged(ctx, w, c.knownTo(ctx, ids), flagged)
+}
+
+func (c *c04Conn) MarkMessagesForwarded(ctx context.Context, w connector.IMAPStateWrite, ids []imap.MessageID, forwarded bool) error {
+	return c.Dummy.MarkMessagesForwarded(ctx, w, c.knownTo(ctx, ids), forwarded)
 }
 
 var c04ReMarkerHdr = regexp.MustCompile(`(?mi)^X-Marker: (\S+)`)
@@ -157,14 +196,14 @@ func (c *c04Conn) AddMessagesToMailbox(ctx context.Context, w connector.IMAPStat
 	if c.takeFail("add") {
 		return c04ErrInjected
 	}
-	return c.Dummy.AddMessagesToMailbox(ctx, w, ids, mboxID)
+	return c.Dummy.AddMessagesToMailbox(ctx, w, c.knownTo(ctx, ids), mboxID)
 }
 
 func (c *c04Conn) MoveMessages(ctx context.Context, w connector.IMAPStateWrite, ids []imap.MessageID, from, to imap.MailboxID) (bool, error) {
 	if c.takeFail("move") {
 		return false, c04ErrInjected
 	}
-	return c.Dummy.MoveMessages(ctx, w, ids, from, to)
+	return c.Dummy.MoveMessages(ctx, w, c.knownTo(ctx, ids), from, to)
 }
 
 func (c *c04Conn) mboxID(name string) (imap.MailboxID, bool) {
@@ -180,8 +219,9 @@ func (c *c04Conn) mboxID(name string) (imap.MailboxID, bool) {
 // ---- database whose next write transactions roll back after having run ---------------------------
 
 type c04DB struct {
-	real db.ClientInterface
-	fail *int32
+	real  db.ClientInterface
+	fail  *int32
+	sched *c04Sched // schedule control at database-call boundaries (o_uids_race.go)
 }
 
 func (d *c04DB) New(path string, userID string) (db.Client, bool, error) {
@@ -189,17 +229,28 @@ func (d *c04DB) New(path string, userID string) (db.Client, bool, error) {
 	if err != nil {
 		return nil, false, err
 	}
-	return &c04Client{Client: c, fail: d.fail}, isNew, nil
+	return &c04Client{Client: c, fail: d.fail, sched: d.sched}, isNew, nil
 }
 
 func (d *c04DB) Delete(path string, userID string) error { return d.real.Delete(path, userID) }
 
 type c04Client struct {
 	db.Client
-	fail *int32
+	fail  *int32
+	sched *c04Sched
+}
+
+func (c *c04Client) Read(ctx context.Context, op func(context.Context, db.ReadOnly) error) error {
+	defer c.sched.exit(c.sched.enter("rd"))
+	return c.Client.Read(ctx, op)
 }
 
 func (c *c04Client) Write(ctx context.Context, op func(context.Context, db.Transaction) error) error {
+	defer c.sched.exit(c.sched.enter("wr"))
+	return c.write(ctx, op)
+}
+
+func (c *c04Client) write(ctx context.Context, op func(context.Context, db.Transaction) error) error {
 	for {
 		n := atomic.LoadInt32(c.fail)
 		if n <= 0 {
@@ -314,28 +365,20 @@ type c04Run struct {
 	mbSeq     int
 	scrambled bool // generator: message sets of COPY/MOVE may be unordered and name a message twice
 	staleOK   bool // generator: COPY/MOVE may run in a session that has not caught up with other sessions' expunges
+	uidnext   map[string]int
+	pool      []string // mailbox names the generator works with (default c04Pool)
+	lastTrace []string // database calls of the last RACE step (o_uids_race.go)
 }
 
 var c04Pool = []string{"INBOX", "mbA", "mbB", "mbC"}
 
-func c04NewRun() (*c04Run, error) {
-	dir, err := os.MkdirTemp("", "vh-c04-")
-	if err != nil {
-		return nil, err
+func c04NewRun() (*c04Run, error) { return c04NewRunAt("", "", nil) }
+
+func (r *c04Run) poolNames() []string {
+	if r.pool != nil {
+		return r.pool
 	}
-	dummy := connector.NewDummy([]string{"user"}, []byte(sysPassword), time.Hour, c04Flags, c04Flags, imap.NewFlagSet())
-	dummy.SetUpdatesAllowedToFail(true)
-	conn := &c04Conn{Dummy: dummy, mboxIDs: map[string]imap.MailboxID{}, msgIDs: map[string]imap.MessageID{}, failNext: map[string]int{}}
-	var fail int32
-	dbw := &c04DB{real: verifhooks.NewSQLiteDB(), fail: &fail}
-	sys, err := c04NewSys(dir, "", conn, dbw, true)
-	if err != nil {
-		_ = os.RemoveAll(dir)
-		return nil, err
-	}
-	r := &c04Run{sys: sys, conn: conn, dbw: dbw, stats: map[string]int{}, exists: map[string]bool{"INBOX": true},
-		content: map[string][]c04Msg{}, uidv: map[string]int{}, hiUidv: map[string]int{}, connMade: map[string]bool{}}
-	return r, nil
+	return c04Pool
 }
 
 func (r *c04Run) close() {
@@ -460,38 +503,52 @@ func (r *c04Run) noteUidv(name string, v int) {
 	}
 }
 
-// observe: fresh listing + STATUS of one mailbox through the observer connection.
-func (r *c04Run) observe(name string) error {
+// listFresh: EXAMINE + full listing + UNSELECT of one mailbox through the observer connection (nothing is logged).
+// ok = false: the mailbox does not exist.
+func (r *c04Run) listFresh(name string) (inf c04SelInfo, ms []c04Msg, ok bool, err error) {
 	o, err := r.observer()
 	if err != nil {
-		return err
+		return inf, nil, false, err
 	}
 	rep := o.Cmd("EXAMINE " + c04Q(name))
 	if rep.Status != "OK" {
 		if rep.Err != nil || rep.Status == "BYE" {
-			return fmt.Errorf("observer EXAMINE %s: %q %v", name, rep.Tagged, rep.Err)
+			return inf, nil, false, fmt.Errorf("observer EXAMINE %s: %q %v", name, rep.Tagged, rep.Err)
 		}
+		return inf, nil, false, nil
+	}
+	inf = c04ParseSelect(rep)
+	ms, err = c04FetchMarkers(o, inf.exists)
+	if err != nil {
+		return inf, nil, false, fmt.Errorf("observer in %s: %w", name, err)
+	}
+	if len(ms) != inf.exists {
+		return inf, nil, false, fmt.Errorf("observer in %s: EXISTS %d but %d messages fetched", name, inf.exists, len(ms))
+	}
+	if rep := o.Cmd("UNSELECT"); rep.Status != "OK" {
+		return inf, nil, false, fmt.Errorf("observer UNSELECT: %q %v", rep.Tagged, rep.Err)
+	}
+	return inf, ms, true, nil
+}
+
+// observe: fresh listing + STATUS of one mailbox through the observer connection.
+func (r *c04Run) observe(name string) error {
+	inf, ms, ok, err := r.listFresh(name)
+	if err != nil {
+		return err
+	}
+	if !ok {
 		delete(r.exists, name) // NO: the mailbox does not exist (any more)
 		delete(r.content, name)
 		return nil
 	}
-	inf := c04ParseSelect(rep)
-	ms, err := c04FetchMarkers(o, inf.exists)
-	if err != nil {
-		return fmt.Errorf("observer in %s: %w", name, err)
-	}
-	if len(ms) != inf.exists {
-		return fmt.Errorf("observer in %s: EXISTS %d but %d messages fetched", name, inf.exists, len(ms))
-	}
-	if rep := o.Cmd("UNSELECT"); rep.Status != "OK" {
-		return fmt.Errorf("observer UNSELECT: %q %v", rep.Tagged, rep.Err)
-	}
 	r.emit("F:%s:%d:%d:%s", c04EvName(name), inf.uidv, inf.uidnext, c04Pairs(ms))
 	r.exists[name] = true
 	r.content[name] = ms
+	r.uidnext[name] = inf.uidnext
 	r.noteUidv(name, inf.uidv)
 	r.stats["obs.listing"]++
-	return r.status(o, name)
+	return r.status(r.obs, name)
 }
 
 func (r *c04Run) status(c *Client, name string) error {
@@ -844,6 +901,18 @@ func (r *c04Run) exec1(step string) (touched []string, full bool, err error) {
 			r.sess[i] = &c04Sess{c: c}
 			return nil, false, nil
 		}
+		if f[1] == "RACE" {
+			// S<i> RACE <p>|rec <command words> // <second party's step>
+			cmdPart, party, _ := strings.Cut(strings.Join(f[3:], " "), " // ")
+			pos := -1
+			if arg(2) != "rec" {
+				if pos, err = strconv.Atoi(arg(2)); err != nil {
+					return nil, false, fmt.Errorf("bad RACE position %q", arg(2))
+				}
+			}
+			touched, err = r.race(i, pos, strings.Fields(cmdPart), strings.TrimSpace(party))
+			return touched, false, err
+		}
 		s := r.session(i)
 		if s == nil {
 			r.stats["step.skipped-no-session"]++
@@ -1058,7 +1127,7 @@ func (r *c04Run) newMarker() string {
 
 func (r *c04Run) existing(except string) []string {
 	var out []string
-	for _, n := range c04Pool {
+	for _, n := range r.poolNames() {
 		if r.exists[n] && n != except {
 			out = append(out, n)
 		}
@@ -1068,7 +1137,7 @@ func (r *c04Run) existing(except string) []string {
 
 func (r *c04Run) missing() []string {
 	var out []string
-	for _, n := range c04Pool {
+	for _, n := range r.poolNames() {
 		if !r.exists[n] {
 			out = append(out, n)
 		}
@@ -1357,7 +1426,7 @@ func (r *c04Run) gen(g *Rng, nsess int, genBudget int) []string {
 				continue
 			}
 			var tg []string
-			for _, b := range append(append([]string{}, c04Pool[1:]...), "mbD") {
+			for _, b := range append(append([]string{}, r.poolNames()[1:]...), "mbD") {
 				if !r.exists[b] && (r.hiUidv[b] <= r.uidv[a] || strings.EqualFold(a, "INBOX")) {
 					tg = append(tg, b)
 				}
@@ -1413,9 +1482,38 @@ type c04Hist struct {
 	aborted string
 }
 
-func c04RunHistory(g *Rng, nsteps int, genBudget int, scrambled bool, catchup string, replay []string) *c04Hist {
+// c04RunHistory: replay != nil: these steps; script != nil: the script drives r.exec itself (scenarios that depend
+// on what earlier steps showed); otherwise nsteps generated steps. A first step `X FIXTURE <name>` opens the
+// server on a copy of that fixture (o_uids_fixture.go); with g != nil generated steps follow the replayed ones.
+func c04RunHistory(g *Rng, nsteps int, genBudget int, scrambled bool, catchup string, replay []string, script func(*c04Run) error) *c04Hist {
 	h := &c04Hist{stats: map[string]int{}}
-	r, err := c04NewRun()
+	var r *c04Run
+	var err error
+	fixture := ""
+	if len(replay) > 0 && strings.HasPrefix(replay[0], "X FIXTURE ") {
+		fixture = strings.TrimSpace(strings.TrimPrefix(replay[0], "X FIXTURE "))
+		r, err = c04NewRunFromFixture(fixture)
+		if err != nil {
+			h.steps = []string{replay[0]}
+			h.err = err
+			if m := c04ReCause.FindString(err.Error()); m != "" {
+				h.aborted = m
+			}
+			return h
+		}
+		r.steps = append(r.steps, replay[0])
+		replay = replay[1:]
+		var pool []string
+		for n := range r.exists {
+			if n != "INBOX" && !strings.Contains(n, " ") {
+				pool = append(pool, n)
+			}
+		}
+		sort.Strings(pool)
+		r.pool = append([]string{"INBOX"}, pool...)
+	} else {
+		r, err = c04NewRun()
+	}
 	if err != nil {
 		h.err = fmt.Errorf("setup: %w", err)
 		return h
@@ -1432,6 +1530,10 @@ func c04RunHistory(g *Rng, nsteps int, genBudget int, scrambled bool, catchup st
 		h.stats["restarts"] += r.restarts
 		r.close()
 	}()
+	if script != nil {
+		h.err = script(r)
+		return h
+	}
 	if replay != nil {
 		for _, st := range replay {
 			if err := r.exec(st); err != nil {
@@ -1439,14 +1541,35 @@ func c04RunHistory(g *Rng, nsteps int, genBudget int, scrambled bool, catchup st
 				return h
 			}
 		}
-		if len(replay) == 0 || replay[len(replay)-1] != "X CHECK" {
-			if err := r.exec("X CHECK"); err != nil {
-				h.err = err
+		if fixture == "" || g == nil {
+			if len(replay) == 0 || replay[len(replay)-1] != "X CHECK" {
+				if err := r.exec("X CHECK"); err != nil {
+					h.err = err
+				}
+			}
+			return h
+		}
+	}
+	nsess := g.Range(1, 2)
+	if fixture != "" {
+		// the recorded history goes on: generated steps over the fixture's mailboxes, then restart + checkpoint
+		for k := 0; k < nsteps; {
+			for _, st := range r.gen(g, nsess, genBudget) {
+				k++
+				if err := r.exec(st); err != nil {
+					h.err = fmt.Errorf("step %q: %w", st, err)
+					return h
+				}
+			}
+		}
+		for _, st := range []string{"X RESTART", "X CHECK"} {
+			if err := r.exec(st); err != nil {
+				h.err = fmt.Errorf("step %q: %w", st, err)
+				return h
 			}
 		}
 		return h
 	}
-	nsess := g.Range(1, 2)
 	// a few mailboxes to start with (one through the connector, so that connector additions have a target)
 	init := []string{"S0 LOGIN", "C MBCREATE mbA", "S0 CREATE mbB"}
 	if g.Chance(1, 2) {
@@ -1527,6 +1650,23 @@ var c04DirectedRenameOntoUsed = []string{
 	"X CHECK",
 }
 
+// c04DirectedRollbackTold: a command whose write transaction ran completely and was then rolled back (the UID it
+// was given inside the transaction goes back to the pool) while ANOTHER session has the mailbox selected: nobody may
+// have been told about that UID (updates are queued after the commit only), and the next addition takes it.
+var c04DirectedRollbackTold = []string{
+	"S0 LOGIN", "S1 LOGIN",
+	"S0 CREATE box", "S0 APPEND box m1",
+	"S0 SELECT box", "S1 SELECT box",
+	"X FAILCOMMIT 1", "S0 APPEND box m2", "X FAILCOMMIT 0",
+	"S1 VIEW",
+	"S1 APPEND box m3",
+	"S0 VIEW", "S1 VIEW",
+	"X FAILCOMMIT 1", "S1 UIDCOPY 1 box", "X FAILCOMMIT 0",
+	"S0 VIEW",
+	"S0 APPEND box m4",
+	"X CHECK",
+}
+
 // ---- oracle -------------------------------------------------------------------------------------
 
 var c04ReCause = regexp.MustCompile(`cause=([A-Za-z0-9_-]+)`)
@@ -1557,11 +1697,19 @@ func runC04UidsOracle(args []string) int {
 	steps := fs.Int("steps", 30, "steps per history (at least)")
 	par := fs.Int("par", 16, "histories run concurrently (they mostly wait for each other's barriers and for the clock)")
 	genBudget := fs.Int("genbudget", 10, "UIDVALIDITY generator calls a history may cause (bounds the clock wait after a restart)")
-	directed := fs.String("directed", "uidv-restart,copyuid-order,copyuid-stale-move,rename-onto-used", "directed scenarios run first (comma separated; `none`)")
+	directed := fs.String("directed", "uidv-restart,copyuid-order,copyuid-stale-move,rename-onto-used,rollback-told", "directed scenarios run first (comma separated; `none`)")
 	catchup := fs.String("catchup", "mixed", "always | never | mixed: a session catches up (NOOP + listing) before COPY/MOVE; before the fix of the MOVE COPYUID length defect (directed scenario copyuid-stale-move) a history without it stopped being judged there")
 	dump := fs.Bool("log", false, "print the observation log of every history to stderr")
+	mkfixture := fs.String("mkfixture", "", "write the upgrade fixtures (database + store + expectations) of the tree this binary is built against into this directory and exit (o_uids_fixture.go)")
+	races := fs.String("race", "default", "schedule control inside one command (o_uids_race.go): comma separated list of select,examine,status,append,copy,move | all | none; `default`: all; every database-call boundary of the command is tried")
+	raceAll := fs.Bool("raceall", true, "every second-party kind (another session's APPEND, its COPY, connector MessageCreated, connector MessagesCreated) at every boundary; false: one per boundary, rotating")
+	fixtures := fs.String("fixtures", "all", "upgrade fixtures ($VERIF_CORPUS/fixtures/*) to open and continue: all | none | comma separated names")
+	fxSteps := fs.Int("fxsteps", 24, "generated steps after a fixture has been opened and checked")
 	ascending := fs.Bool("ascending", false, "generated COPY/MOVE sets are ascending and name no message twice (before fix 071c9b5 an unordered set made the server pair the COPYUID sets wrongly: directed scenario copyuid-order)")
 	_ = fs.Parse(args)
+	if *mkfixture != "" {
+		return c04MakeFixtures(*mkfixture)
+	}
 
 	res := &OracleResult{Stats: map[string]int{}, Samples: []any{}, Violations: []OracleViol{}}
 	type job struct {
@@ -1569,6 +1717,8 @@ func runC04UidsOracle(args []string) int {
 		replay []string
 		g      *Rng
 		h      *c04Hist
+		script func(*c04Run) error
+		nsteps int
 	}
 	var jobs []*job
 	if *replay != "" {
@@ -1589,6 +1739,8 @@ func runC04UidsOracle(args []string) int {
 				jobs = append(jobs, &job{name: "directed:" + d, replay: c04DirectedCopyuidStaleMove})
 			case "rename-onto-used":
 				jobs = append(jobs, &job{name: "directed:" + d, replay: c04DirectedRenameOntoUsed})
+			case "rollback-told":
+				jobs = append(jobs, &job{name: "directed:" + d, replay: c04DirectedRollbackTold})
 			}
 		}
 		if dir := os.Getenv("VERIF_CORPUS"); dir != "" {
@@ -1601,6 +1753,36 @@ func runC04UidsOracle(args []string) int {
 			}
 		}
 		g := NewRng(*seed)
+		// upgrade fixtures: opened by the tree under test, compared with what their writer showed, continued
+		if *fixtures != "none" {
+			for _, fx := range c04FixtureNames() {
+				if *fixtures != "all" && !strings.Contains(","+*fixtures+",", ","+fx+",") {
+					continue
+				}
+				pre := []string{"X FIXTURE " + fx, "X CHECK", "S0 LOGIN"}
+				exp, err := c04ReadExpect(filepath.Join(c04FixtureDir(fx), "expect.txt"))
+				if err == nil {
+					// first of all every mailbox receives a message: it must get the recorded UIDNEXT or more
+					for k, m := range exp.mboxes {
+						if !strings.Contains(m.name, " ") {
+							pre = append(pre, fmt.Sprintf("S0 APPEND %s fx%d", m.name, k))
+						}
+					}
+				}
+				jobs = append(jobs, &job{name: "fixture:" + fx, replay: pre, g: g.Fork(), nsteps: *fxSteps})
+				res.Stats["fixtures"]++
+			}
+		}
+		// schedule control inside one command
+		if *races != "none" {
+			every := *raceAll
+			for _, kind := range c04RaceOrder {
+				if *races != "default" && *races != "all" && !strings.Contains(","+*races+",", ","+kind+",") {
+					continue
+				}
+				jobs = append(jobs, &job{name: "race:" + kind, script: c04RaceScript(kind, g.Fork(), every)})
+			}
+		}
 		for k := 0; k < *n; k++ {
 			jobs = append(jobs, &job{name: fmt.Sprintf("seed%d-h%d", *seed, k), g: g.Fork()})
 		}
@@ -1618,7 +1800,11 @@ func runC04UidsOracle(args []string) int {
 					j.h = &c04Hist{stats: map[string]int{}, err: fmt.Errorf("harness panic: %v", p)}
 				}
 			}()
-			j.h = c04RunHistory(j.g, *steps, *genBudget, !*ascending, *catchup, j.replay)
+			ns := *steps
+			if j.nsteps > 0 {
+				ns = j.nsteps
+			}
+			j.h = c04RunHistory(j.g, ns, *genBudget, !*ascending, *catchup, j.replay, j.script)
 		}(j)
 	}
 	wg.Wait()
